@@ -347,7 +347,8 @@ def crash_violation(run, prefix, exc, witness):
         run.violation(sig, witness, "harness process did not answer %r within the watchdog"
                       % exc.last_cmd)
         return
-    s = common.sanitizer_signature(exc.stderr) or ("abort-rc%s" % exc.rc)
+    s = (common.sanitizer_signature(exc.stderr) or common.valgrind_signature(exc.stderr)
+         or ("abort-rc%s" % exc.rc))
     witness = dict(witness, stderr=exc.stderr[-4000:], last_cmd=exc.last_cmd)
     run.violation("%s/sanitizer/%s" % (prefix, s), witness, exc.stderr[-1500:])
 
